@@ -13,6 +13,7 @@ import (
 	"hash/fnv"
 	"os"
 	"path/filepath"
+	"runtime"
 	"runtime/debug"
 	"sort"
 	"strconv"
@@ -688,3 +689,30 @@ func Recover(t *testing.T) {
 		t.Errorf("harness panic: %v", r)
 	}
 }
+
+// ---------------------------------------------------------------- load-aware hang guards
+
+// Scaled stretches a hang guard by how oversubscribed the machine is right now
+// (1-minute load average per CPU): a call that needs microseconds can take
+// seconds to be scheduled when forty busy processes share sixteen cores, and a
+// guard that expires then says nothing about the code. A deadlock never
+// finishes, so stretching the wait only delays its report.
+func Scaled(d time.Duration) time.Duration {
+	f := 1.0
+	if b, err := os.ReadFile("/proc/loadavg"); err == nil {
+		var l1 float64
+		if _, err := fmt.Sscanf(string(b), "%f", &l1); err == nil {
+			per := l1 / float64(runtime.NumCPU())
+			if per > 0.5 {
+				f = 1 + 3*(per-0.5)
+			}
+		}
+	}
+	if f > 12 {
+		f = 12
+	}
+	return time.Duration(float64(d) * f)
+}
+
+// After is time.After(Scaled(d)).
+func After(d time.Duration) <-chan time.Time { return time.After(Scaled(d)) }
